@@ -65,6 +65,8 @@ type ArchiveDecoder struct {
 	last interface{}
 	// rooted is set once the root entry of the archive has been decoded
 	rooted bool
+	// rootNotDir is set if the root entry of the archive is not a directory
+	rootNotDir bool
 }
 
 // validFilename returns true if name can be used as the name of an entry in
@@ -177,6 +179,15 @@ loop:
 		return nil, InvalidFormat{"entry without filename in archive"}
 	}
 	a.rooted = true
+
+	// Entries can only be unpacked into a directory. If the root entry of the archive
+	// is a file, symlink or device, it becomes the destination itself and nothing can
+	// follow it. A named entry would be written through it otherwise.
+	if name == "" {
+		a.rootNotDir = payload != nil || device != nil || symlink != nil
+	} else if a.rootNotDir {
+		return nil, InvalidFormat{"entry follows a root entry that is not a directory"}
+	}
 
 	// If it doesn't have a payload or is a device/symlink, it must be a directory
 	if payload == nil && device == nil && symlink == nil {
